@@ -1034,6 +1034,9 @@ func (w *World) lqHash(id string) string {
 // SetScript appends scripted backend answers for a payment hash.
 func (w *World) SetScript(hash string, pay, status []string) { w.setScript(hash, pay, status) }
 
+// ClearScript drops what is left of a script.
+func (w *World) ClearScript(hash string) { delete(w.Node.Scripts, hash) }
+
 // PaymentHashOf decodes a bolt11 request.
 func PaymentHashOf(request string) (string, error) {
 	b, err := decodepay.Decodepay(request)
